@@ -164,6 +164,18 @@ pub fn run(prop: &str, tier: &str, replay: Option<&str>) -> i32 {
                     keys.push((format!("{} as {}", z.name, a.name()), k, a));
                 }
             }
+            // ... and however else the key can come into being: every loading entry point (the PEM a key hands out
+            // must be the envelope of PKCS#8 whatever form and door it came through)
+            if !z.kind.is_slow() {
+                for e in super::c11::ENTRIES {
+                    let alg = if e.takes_alg() { Some(z.kind.natural_alg()) } else { None };
+                    if let Ok(Ok(k)) = super::c11::load(e, &z.der, z.format, alg) {
+                        if let Some(a) = alg_of(k.algorithm()) {
+                            keys.push((format!("{} via {:?}", z.name, e), k, a));
+                        }
+                    }
+                }
+            }
         }
         for a in backend_algs() {
             for i in 0..(if thorough { 8 } else { 2 }) {
@@ -213,6 +225,12 @@ pub fn run(prop: &str, tier: &str, replay: Option<&str>) -> i32 {
                 Ok(s) => {
                     if s.der_bytes() != kp.der_bytes() {
                         f.push(Finding::new("PEM-LOADER", "SubjectPublicKeyInfo::from_pem", "recovered key bits differ"));
+                    }
+                    // the same key: same kind of key (RSA public keys do not say which hash goes with them), and
+                    // the PEM made from what was loaded envelopes the same bytes
+                    let same_alg = if k.2.is_rsa() { alg_of(s.algorithm()).map(|a| a.is_rsa()).unwrap_or(false) } else { s.algorithm() == kp.algorithm() };
+                    if !same_alg {
+                        f.push(Finding::new("PEM-LOADER", "SubjectPublicKeyInfo::from_pem", format!("the public key of a {:?} key loads as a {:?} key", kp.algorithm(), s.algorithm())));
                     }
                 }
                 Err(e) => f.push(Finding::new("PEM-LOADER", "SubjectPublicKeyInfo::from_pem", format!("{:?}", e))),
